@@ -110,6 +110,7 @@ ADD9 = {
  'C16': " The record pairs also contain messages whose first field only starts with a record word (REMOTEX, REMOTE_ADDR, SERVERS, ...) for the same server as genuine records.",
  'C18': " Also a fleet list of 400000 systematically named servers (400 listed twice) as file and comma list in listed order.",
 }
+ADD9['C02'] = " Also gzip files whose last 8 bytes are missing (alone, in a glob of two, 900 lines): what is delivered must be a prefix of the file, each line once, in order (DESIGN.md 9.13)."
 for k, v in ADD9.items():
     ADD[k] = ADD.get(k, "") + v
 for k, v in ADD.items():
